@@ -205,6 +205,11 @@ def enumerate_cases(tier, seed):
                         # single-readout and the time-domain path slice them with the target range) - see ASSUMPTIONS
                         cases.append({"fam": "fit", "func": func, "ntargets": ntargets, "weights": weights, "dims": dims,
                                       "range": rk, "rtype": ("pixel", "signal")[(ntargets + dims + len(rk)) % 2]})
+    # histories: a second calibration in the same process, target / weight files REWRITTEN under the same names
+    for dims in (2, 3):
+        for weights in ("none", "file"):
+            for ntargets in (1, 2):
+                cases.append({"fam": "hist", "dims": dims, "weights": weights, "ntargets": ntargets, "func": FUNCS[dims % 2]})
     # archipelago runs (multi-readout: 6-value result range + 4-value target range; one 4-value/4-value case)
     algos = ("sade", "sga", "nlopt")
     for u, algo in enumerate(algos):
@@ -243,13 +248,13 @@ def expected_size(tier, seed):
     fit = len(FUNCS) * 3 * ((3 + 4) + (3 + 4) + (3 + 4))
     combos = 3 * 2 * 2 * 2 * 2
     runs = (combos * 2 if thorough else combos // 2 + combos // 4) + 1 + 2
-    return rows + cols + tsize + rsize + time + fit + runs
+    return rows + cols + tsize + rsize + time + fit + runs + 8
 
 
 # ---------------------------------------------------------------- construction
 
 def build(td, seed, *, res, tgt, tshape, times=None, func="sum_of_abs_residuals", ntargets=1, weights="none",
-          rtype="pixel", algo="sade", npar=1, **calkw):
+          rtype="pixel", algo="sade", npar=1, content_seed=None, **calkw):
     from pyxel.calibration import Algorithm, Calibration
     from pyxel.exposure import Readout
     from pyxel.observation import ParameterValues
@@ -257,14 +262,15 @@ def build(td, seed, *, res, tgt, tshape, times=None, func="sum_of_abs_residuals"
 
     td = Path(td)
     targets, tfiles, wfiles, wvals = [], [], [], []
+    cs = seed if content_seed is None else content_seed      # file NAMES depend on `seed`, file CONTENT on `cs`
     for i in range(ntargets):
-        arr = target_array(i, tuple(tshape), seed)
+        arr = target_array(i, tuple(tshape), cs)
         p = td / f"target{i}_{seed}.npy"
         np.save(p, arr)
         targets.append(arr)
         tfiles.append(p)
         if weights == "file":
-            w = weight_array(i, tuple(tshape), seed)
+            w = weight_array(i, tuple(tshape), cs)
             pw = td / f"weight{i}_{seed}.npy"
             np.save(pw, w)
             wfiles.append(pw)
@@ -336,9 +342,52 @@ def run_case(case):
     try:
         if case["fam"] == "run":
             return _run_optim(case, seed, td)
+        if case["fam"] == "hist":
+            return _run_history(case, seed, td)
         return _run_problem(case, seed, td)
     finally:
         shutil.rmtree(td, ignore_errors=True)
+
+
+def _run_history(case, seed, td):
+    """two calibrations in one process on the same file names; the files are rewritten in between: each problem must
+    fit the content its files hold when it is built"""
+    viol = []
+    times = 3 if case["dims"] == 3 else None
+    tshape = [3, ROWS, COLS] if times else [ROWS, COLS]
+    res = [0, ROWS, 0, COLS] if not times else [0, 3, 0, ROWS, 0, COLS]
+    tgt = [0, ROWS, 0, COLS]
+    nsteps = times or 1
+    values = []
+    for phase, cs in (("first", seed), ("second", seed + 11)):
+        try:
+            cal, proc, info = build(td, seed, res=res, tgt=tgt, tshape=tshape, times=times, func=case["func"],
+                                    ntargets=case["ntargets"], weights=case["weights"], content_seed=cs, pygmo_seed=1)
+            problem, _ = calib.real_problem(cal, proc)
+            for a in (1.0, 2.75):
+                want = expected_fitness(a, info, res, tgt, nsteps, case["func"], "pixel", case["weights"])
+                got = float(np.ravel(problem.fitness(np.array([a])))[0])
+                values.append(round(want, 9))
+                if not feq(got, want):
+                    stale = ""
+                    if phase == "second":
+                        old = dict(info, targets=[target_array(i, tuple(tshape), seed) for i in range(case["ntargets"])])
+                        if case["weights"] == "file":
+                            old["weights"] = [weight_array(i, tuple(tshape), seed) for i in range(case["ntargets"])]
+                        if feq(got, expected_fitness(a, old, res, tgt, nsteps, case["func"], "pixel", case["weights"])):
+                            stale = " (it equals the value for the files' PREVIOUS content)"
+                    viol.append(({"fam": "hist", "code": "stale-files" if stale else "fitness-value", "phase": phase,
+                                  "weights": case["weights"], "dims": case["dims"]},
+                                 f"history {case}: {phase} calibration: fitness([{a}]) = {got!r}, the independent "
+                                 f"evaluation on the files' current content gives {want!r}{stale}"))
+                    break
+        except Exception as e:  # noqa: BLE001
+            viol.append(({"fam": "hist", "code": "raised", "phase": phase}, f"history {case}: {phase} calibration raised "
+                         f"{type(e).__name__}: {str(e)[:200]}"))
+        if viol:
+            break
+    return {"viol": viol, "sig": cfgx.sig(["hist", case, values]), "nontrivial": len(values) >= 4, "n": max(1, len(values)),
+            "outcome": {"fitness": values[:4]}}
 
 
 def _fit_ranges(case):
